@@ -19,7 +19,7 @@ from .. import core, tlaval
 
 FLOAT_TOL = {'f8': 1e-12, 'f4': 2e-6}
 NP = {'f8': np.float64, 'f4': np.float32, 'i8': np.int64, 'i4': np.int32, 'i2': np.int16, 'u1': np.uint8}
-MAX_VIOL_PER_FN = 40
+MAX_VIOL_PER_FN = 25
 
 
 # ----------------------------------------------------------------------------------------------
@@ -211,7 +211,7 @@ class Reporter:
         self.suppressed = 0
 
     def report(self, what, case, finding=None):
-        fn = case['call']['fn']
+        fn = case['call']['fn'] + ('/recorded' if 'record' in case else '/dynamic' if case.get('dyn') else '')
         k = self.per_fn.get(fn, 0)
         self.per_fn[fn] = k + 1
         if k >= MAX_VIOL_PER_FN:
@@ -378,29 +378,190 @@ def random_records(ctx, rng, count):
     return recs
 
 
+# ----------------------------------------------------------------------------------------------
+# huge dynamic range (laws SmoothLinear / RebinLinear, SmoothSupport, RebinWeightsArePartition of the spec)
+# ----------------------------------------------------------------------------------------------
+HUGE = 2 ** 60          # every entry of the concrete array is either HUGE * (small int) or a small int: exact in float64
+
+
+def flat(exp):
+    return tuple(v for pair in exp['val'] for v in pair)
+
+
+def check_dyn(fn, xs, shape, w, flag, d, want, tol):
+    """xs: exact integer entries; want: [(num, den)] (Python ints); tol: absolute tolerance per element."""
+    arr = np.array([float(v) for v in xs], dtype=np.float64).reshape(tuple(shape))
+    obs = execute(fn, arr, w, flag, d)
+    if obs['err']:
+        return 'raised %s (%s)' % (obs['exc'], obs.get('msg')), obs
+    if len(obs['vals']) != len(want):
+        return 'shape %r, %d elements specified' % (obs['shape'], len(want)), obs
+    for k, (num, den) in enumerate(want):
+        e = num / den
+        if not abs(obs['vals'][k] - e) <= tol[k]:
+            return 'element %d is %r, specified %r (+-%.1e): the huge sample is outside its reach' % (k, obs['vals'][k], e, tol[k]) \
+                if tol[k] < 1 else 'element %d is %r, specified %r (+-%.1e)' % (k, obs['vals'][k], e, tol[k]), obs
+    return None, obs
+
+
+def combine(coef, eb, es):
+    """coef * (result of b) + (result of s), exactly, and the tolerance: 1e-11 of the huge part, 1e-12 of the small part."""
+    want, tol = [], []
+    for k in range(0, len(es), 2):
+        nb, db, ns, ds = eb[k], eb[k + 1], es[k], es[k + 1]
+        want.append((coef * nb * ds + ns * db, db * ds))
+        tol.append(1e-11 * abs(coef) * nb / db + 1e-12 * max(1.0, abs(ns / ds)))
+    return want, tol
+
+
+def dynamic_range(ctx, rep, smooth_tab, rebin_pat, delta_tab):
+    done = 0
+    for key in sorted(smooth_tab):
+        n, w, flag = key
+        tab = smooth_tab[key]
+        for sx in sorted(tab):
+            h = hash((ctx.seed, key, sx))
+            if not ctx.quick and h % 3:
+                continue
+            rng = random.Random(h)
+            b = [0] * n
+            for pos in rng.sample(range(n), min(n, rng.choice([1, 1, 2]))):
+                b[pos] = rng.choice([1, 2, 5])
+            b = tuple(b)
+            s2 = tuple(0 if b[j] else sx[j] for j in range(n))
+            if b not in tab or s2 not in tab or not any(s2):
+                continue
+            coef = HUGE if rng.random() < 0.7 else -HUGE
+            xs = [coef * b[j] + s2[j] for j in range(n)]
+            want, tol = combine(coef, tab[b], tab[s2])
+            why, obs = check_dyn('smooth', xs, (n,), w, flag, (), want, tol)
+            done += 1
+            ctx.nontriv(hash(('dyn', key, b, s2, coef)))
+            if done % 3000 == 5:
+                ctx.sample({'dynamic_range_call': 'smooth(%r, %d, edge_truncate=%r)' % (xs, w, flag),
+                            'specified': ['%d/%d' % v for v in want], 'observed': obs['vals']}, limit=7)
+            if why:
+                rep.report('smooth(np.array(%r, dtype=float), %d, edge_truncate=%r): %s' % (xs, w, flag, why),
+                           {'call': {'fn': 'smooth', 'x': xs, 'shape': [n], 'w': w, 'flag': flag, 'd': []}, 'dyn': True,
+                            'want': want, 'tol': tol, 'huge_part': list(b), 'small_part': list(s2), 'why': why})
+    ctx.evaluated(done, 'smooth-dynamic-range')
+    ctx.validated(done)
+    done = 0
+    for key in sorted(rebin_pat):
+        shape, d = key
+        for x, es in rebin_pat[key]:
+            for p, ed in sorted(delta_tab.get(key, {}).items()):
+                for sign in (1, -1):
+                    xs = list(x)
+                    xs[p] = sign * HUGE
+                    if not any(v for j, v in enumerate(x) if j != p):
+                        continue
+                    want, tol = combine(sign * HUGE - x[p], ed, es)
+                    why, obs = check_dyn('rebin', xs, shape, 0, False, d, want, tol)
+                    done += 1
+                    ctx.nontriv(hash(('dyn', key, x, p, sign)))
+                    if why:
+                        rep.report('rebin(np.array(%r, dtype=float).reshape(%r), %r): %s' % (xs, shape, d, why),
+                                   {'call': {'fn': 'rebin', 'x': xs, 'shape': list(shape), 'w': 0, 'flag': False, 'd': list(d)},
+                                    'dyn': True, 'want': want, 'tol': tol, 'why': why})
+    ctx.evaluated(done, 'rebin-dynamic-range')
+    ctx.validated(done)
+
+
+def split_huge(v):
+    """Abstract a float result of a huge-dynamic-range call: v = HUGE * vb + vs with vb, vs nearby small rationals."""
+    fv = Fraction(v)
+    vb = (fv / HUGE).limit_denominator(20000)
+    okb = abs(fv / HUGE - vb) <= Fraction(1, 10 ** 11) * max(1, abs(vb))
+    rest = fv - HUGE * vb
+    if abs(rest) < 2 ** 20:
+        q, oks = to_rat(float(rest), 1e-11)
+    else:
+        q, oks = [0, 1], False
+    return [vb.numerator, vb.denominator], bool(okb), q, bool(oks)
+
+
+def record_dyn(of, sq, bq, shape, w, flag, d):
+    """x = HUGE * b + s/4 with s = 0 wherever b # 0 (every entry exact); the result is recorded as its two parts."""
+    xs = [HUGE * b + Fraction(q, 4) for q, b in zip(sq, bq)]
+    arr = np.array([float(v) for v in xs], dtype=np.float64).reshape(tuple(shape))
+    assert all(Fraction(float(v)) == v for v in xs)
+    obs = execute(of, arr, w, flag, d)
+    val, valb, ex, exb = [], [], [], []
+    if not obs['err']:
+        for v in obs['vals']:
+            qb, okb, qs, oks = split_huge(float(v))
+            valb.append(qb); exb.append(okb); val.append(qs); ex.append(oks)
+    return {'fn': 'dyn', 'of': of, 'x': [quarter(q) for q in sq], 'xb': [[int(b), 1] for b in bq], 'shape': list(shape), 'w': w,
+            'flag': bool(flag), 'd': list(d), 'dt_in': 'f8', 'dt_out': obs['dtype'], 'check_val': True, 'exact': True,
+            'ret': {'err': obs['err'], 'exc': obs['exc'] or '', 'shape': list(obs['shape']), 'val': val, 'valb': valb,
+                    'ex': ex, 'exb': exb}}
+
+
+def random_dyn_records(rng, count):
+    recs = []
+    for k in range(count):
+        if k % 3 < 2:
+            n = rng.randint(3, 20)
+            ws = [w for w in range(2, n + 1) if (w + 1 if w % 2 == 0 else w) <= n]
+            w = rng.choice(ws)
+            bq = [0] * n
+            for pos in rng.sample(range(n), rng.choice([1, 1, 2])):
+                bq[pos] = rng.choice([-5, -1, 1, 2, 3, 5])
+            sq = [0 if bq[j] else rng.randint(-40, 40) for j in range(n)]
+            recs.append(record_dyn('smooth', sq, bq, [n], w, rng.random() < 0.5, []))
+        else:
+            rank = rng.randint(1, 2)
+            shape, d = [], []
+            for _ in range(rank):
+                d0 = rng.randint(1, 8 if rank == 1 else 6)
+                p = rng.random()
+                if p < 0.2:
+                    t = d0
+                elif p < 0.5:
+                    t = d0 * rng.randint(2, 4)
+                else:
+                    t = rng.choice([v for v in range(1, d0 + 1) if d0 % v == 0])
+                shape.append(d0)
+                d.append(t)
+            n = int(np.prod(shape))
+            bq = [0] * n
+            bq[rng.randrange(n)] = rng.choice([-3, -1, 1, 2])
+            sq = [0 if bq[j] else rng.randint(-40, 40) for j in range(n)]
+            recs.append(record_dyn('rebin', sq, bq, shape, 0, rng.random() < 0.25, d))
+    return recs
+
+
 def trace_direction(ctx, rep):
     rng = random.Random(ctx.seed)
     recs = random_records(ctx, rng, 2000 if ctx.quick else 9000)
+    recs += random_dyn_records(rng, 400 if ctx.quick else 2500)
     bad = core.validate_records(ctx, 'Trace_IdlBuiltins', recs, chunk=3000)
     ctx.evaluated(len(recs), 'recorded')
     ctx.validated(len(recs))
     for k, rec in enumerate(recs):
         if not rec['ret']['err'] or rec['ret']['exc'] == 'ValueError':
-            ctx.nontriv(hash(('rec', rec['fn'], repr(rec['x']), tuple(rec['shape']), rec['w'], rec['flag'], tuple(rec['d']))))
+            ctx.nontriv(hash(('rec', rec['fn'], repr(rec['x']), repr(rec.get('xb')), tuple(rec['shape']), rec['w'], rec['flag'],
+                              tuple(rec['d']))))
     seen = set()
     for k in sorted(bad):
         rec = recs[k]
         why = bad[k]
         if why == 'undefined':
             raise core.MachineryError('harness recorded a call outside the specified family: %r' % rec)
-        key = json.dumps([rec[f] for f in ('fn', 'x', 'shape', 'w', 'flag', 'd', 'dt_in')])
+        key = json.dumps([rec.get(f) for f in ('fn', 'of', 'x', 'xb', 'shape', 'w', 'flag', 'd', 'dt_in')])
         if key in seen:
             continue
         seen.add(key)
-        c = {'fn': rec['fn'], 'x': [a / b for a, b in rec['x']], 'shape': rec['shape'], 'w': rec['w'],
-             'flag': rec['flag'], 'd': rec['d']}
+        if rec['fn'] == 'dyn':
+            c = {'fn': rec['of'], 'x': [HUGE * b[0] + a / q for (a, q), b in zip(rec['x'], rec['xb'])], 'shape': rec['shape'],
+                 'w': rec['w'], 'flag': rec['flag'], 'd': rec['d']}
+        else:
+            c = {'fn': rec['fn'], 'x': [a / b for a, b in rec['x']], 'shape': rec['shape'], 'w': rec['w'],
+                 'flag': rec['flag'], 'd': rec['d']}
         rep.report('recorded call rejected by Trace_IdlBuiltins: %s: %s' % (call_text(c, rec['dt_in'])[:170], why),
-                   {'call': {'fn': rec['fn']}, 'record': rec, 'why': why}, finding='D-C14-1' if why.startswith('D-C14-1') else None)
+                   {'call': {'fn': rec.get('of', rec['fn'])}, 'record': rec, 'why': why},
+                   finding='D-C14-1' if why.startswith('D-C14-1') else None)
     ctx.sample({'recorded_call': {k: (v if k not in ('x',) else v[:8]) for k, v in recs[0].items()}})
 
 
@@ -411,12 +572,16 @@ def run(ctx):
                 'specified by IdlBuiltins.tla, executed on the real function (float64 always, float32/integer dtypes in '
                 'rotation; 2-D running medians also transposed); non-trivial = distinct calls whose specified result is not '
                 'trivially the input (non-constant array and width >= 3 for filters, a changed or rejected shape for rebin, '
-                'every uniq call); recorded calls = seeded random calls judged by Trace_IdlBuiltins')
+                'every uniq call); dynamic-range calls = two enumerated smooth/rebin cases b, s combined as 2^60*b + s, expected value '
+                '2^60*spec(b) + spec(s) by the TLC-checked linearity laws; recorded calls = seeded random calls (incl. '
+                'huge-dynamic-range ones, result split into its 2^60 part and its small part) judged by Trace_IdlBuiltins')
     ctx.assumptions = [
         'floats are compared with the exact rational results up to 1e-12 relative (float64) / 2e-6 (float32)',
         'smooth: made-odd widths not exceeding the array length; medians: odd widths not exceeding the smallest dimension',
         'integer dtypes (rebin): shape and dtype always, values only with sample=True; the rounding of integer block means and '
         'interpolations is left open by the statement (pydl documents it as not IDL compatible, upstream issue #60)',
+        'dynamic range: elements whose reach contains a 2^60-sized sample are held to 1e-11 of that size, all others to '
+        '1e-12 relative to their own value; a small window next to a huge sample must not lose precision',
         'uniq(x, index) on a constant array: both index[n-1] (statement) and n-1 (IDL source) are accepted',
         'abstraction in the recorded direction: float -> Fraction.limit_denominator(20000), flagged inexact if further than 1e-11',
     ]
@@ -425,6 +590,7 @@ def run(ctx):
     r = ctx.tlc('MC_IdlBuiltins.tla', cfg, dump=True, timeout=2400, jvm_props=('-Xss64m',))
     n = 0
     per = {}
+    smooth_tab, rebin_pat, delta_tab = {}, {}, {}
     for st in fast_states(r):
         c, exp = st['c'], st['exp']
         if c['fn'] in ('root', 'seed'):
@@ -434,6 +600,13 @@ def run(ctx):
         per[c['fn']] = per.get(c['fn'], 0) + 1
         if is_nontrivial(c, exp):
             ctx.nontriv(hash((c['fn'], c['x'], c['shape'], c['w'], c['flag'], c['d'])))
+        if c['fn'] == 'smooth' and c['w'] >= 2:
+            smooth_tab.setdefault((len(c['x']), c['w'], c['flag']), {})[c['x']] = flat(exp)
+        elif c['fn'] == 'rebin' and not c['flag'] and not exp['err'] and c['d'] != c['shape']:
+            if sorted(c['x'])[-2:] == [0, 1] or c['x'] == (1,):
+                delta_tab.setdefault((c['shape'], c['d']), {})[c['x'].index(1)] = flat(exp)
+            else:
+                rebin_pat.setdefault((c['shape'], c['d']), []).append((c['x'], flat(exp)))
         runs = [(dt, False) for dt in dtypes_for(c, hash((c['x'], c['shape'], c['w'], c['d'])))]
         if c['fn'] == 'runmed2':
             runs.append(('f8', True))
@@ -456,6 +629,7 @@ def run(ctx):
         pass
     if n == 0:
         raise core.MachineryError('MC_IdlBuiltins produced no call states')
+    dynamic_range(ctx, rep, smooth_tab, rebin_pat, delta_tab)
     trace_direction(ctx, rep)
     if rep.suppressed:
         print('(%d further failing cases not written as replay files)' % rep.suppressed)
@@ -470,6 +644,24 @@ def replay(ctx, case):
     ctx.nontriv('a')
     ctx.nontriv('b')
     ctx.evaluated(1)
+    if case.get('dyn'):
+        c = case['call']
+        why, obs = check_dyn(c['fn'], c['x'], c['shape'], c['w'], c['flag'], c['d'], [tuple(v) for v in case['want']], case['tol'])
+        ctx.validated()
+        print('replayed call: %s on %r' % (c['fn'], c['x']), '\nobserved:', brief(obs), '\nverdict:', why or 'conforms')
+        if why:
+            ctx.violation(dict(case, what=case.get('what', why)))
+        return
+    if 'record' in case and case['record']['fn'] == 'dyn':
+        rec = case['record']
+        new = record_dyn(rec['of'], [int(Fraction(a, b) * 4) for a, b in rec['x']], [b[0] for b in rec['xb']], rec['shape'],
+                         rec['w'], rec['flag'], rec['d'])
+        bad = core.validate_records(ctx, 'Trace_IdlBuiltins', [new])
+        ctx.validated()
+        print('replayed recorded huge-dynamic-range call of', rec['of'], '\nverdict:', bad.get(0, 'accepted'))
+        if bad:
+            ctx.violation(dict(case, what=case.get('what', 'recorded call rejected')))
+        return
     if 'record' in case:
         rec = case['record']
         xq = [Fraction(a, b) * 4 for a, b in rec['x']]
